@@ -222,3 +222,58 @@ benign(
     (ASYNC, "        for task in finished:\n            if task in superseded:", "        for fut in finished:\n            task = fut\n            if task in superseded:"),
 )
 benign("B-retry-bound-commuted", ["C08"], (LOCAL, "stop=stop_after_attempt(retries + 1)", "stop=stop_after_attempt(1 + retries)"))
+
+# ---------------------------------------------------------------- C13
+mutant(
+    "M69-end-callback-inside-result-loop",
+    ["C13"],
+    "EVENTS-1",
+    (ASYNC, "                async for result, stats in streamer:\n                    handle_callbacks(callbacks, result, stats)\n            handle_operation_end_callbacks(callbacks, name)", "                async for result, stats in streamer:\n                    handle_callbacks(callbacks, result, stats)\n                    handle_operation_end_callbacks(callbacks, name)"),
+)
+mutant(
+    "M70-start-after-task-loop",
+    ["C13"],
+    "EVENTS-1",
+    (LOCAL, "        for name, node in visit_nodes(dag):\n            handle_operation_start_callbacks(callbacks, name)\n            pipeline: CubedPipeline = node[\"pipeline\"]", "        for name, node in visit_nodes(dag):\n            pipeline: CubedPipeline = node[\"pipeline\"]"),
+    (LOCAL, "            handle_operation_end_callbacks(callbacks, name)\n\n\n@execution_timing", "            handle_operation_start_callbacks(callbacks, name)\n            handle_operation_end_callbacks(callbacks, name)\n\n\n@execution_timing"),
+)
+mutant(
+    "M70b-gen-ends-only-last",
+    ["C13"],
+    "EVENTS-1",
+    (ASYNC, "            for name in group_names:\n                handle_operation_end_callbacks(callbacks, name)", "            handle_operation_end_callbacks(callbacks, name)"),
+)
+mutant(
+    "M70c-task-end-twice",
+    ["C13"],
+    "EVENTS-1",
+    (ASYNC, "                async for result, stats in streamer:\n                    handle_callbacks(callbacks, result, stats)\n            handle_operation_end_callbacks(callbacks, name)", "                async for result, stats in streamer:\n                    handle_callbacks(callbacks, result, stats)\n                    handle_callbacks(callbacks, result, stats)\n            handle_operation_end_callbacks(callbacks, name)"),
+)
+mutant(
+    "M70d-gen-start-conditional",
+    ["C13"],
+    "EVENTS-1",
+    (ASYNC, "            for name in group_names:\n                handle_operation_start_callbacks(callbacks, name)", "            for name in group_names[:1]:\n                handle_operation_start_callbacks(callbacks, name)"),
+)
+mutant(
+    "M70e-compute-end-before-execute",
+    ["C13"],
+    "EVENTS-1",
+    (PLAN, "        executor.execute_dag(\n            dag,\n            compute_id=compute_id,\n            callbacks=callbacks,\n            spec=spec,\n            **kwargs,\n        )\n        if callbacks is not None:\n            event = ComputeEndEvent(compute_id, dag)\n            for callback in callbacks:\n                callback.on_compute_end(event)", "        if callbacks is not None:\n            event = ComputeEndEvent(compute_id, dag)\n            for callback in callbacks:\n                callback.on_compute_end(event)\n        executor.execute_dag(\n            dag,\n            compute_id=compute_id,\n            callbacks=callbacks,\n            spec=spec,\n            **kwargs,\n        )"),
+)
+mutant("M67-num-tasks-from-inputs", ["C13"], "COUNT-1", (PBW, "        num_tasks = math.prod(len(c) for c in chunks_normal)", "        num_tasks = math.prod(len(c) for c in arrays[0].chunks)"))
+mutant("M67b-fuse-num-tasks-from-pred", ["C13", "C02"], "COUNT-1", (PBW, "    num_tasks = primitive_op.num_tasks\n\n    fused_pipeline", "    num_tasks = predecessor_primitive_ops[0].num_tasks\n\n    fused_pipeline"), also=("FUSE-PROV-1",))
+mutant("M67c-create-arrays-count", ["C13"], "COUNT-1", (PLAN, "    num_tasks = len(lazy_zarr_arrays)\n", "    num_tasks = 1\n"))
+mutant("M68-stats-skip-create-arrays", ["C13"], "STATS-1", (PLAN, "                if primitive_op is not None:\n                    # allowed mem is the same for all ops", "                if primitive_op is not None and name != \"create-arrays\":\n                    # allowed mem is the same for all ops"))
+mutant("M68b-chunkkeys-drops-axis", ["C13", "C05"], "COUNT-1", (PBW, "            list, itertools.product(*[range(len(c)) for c in self.chunks_normal])\n        )", "            list, itertools.product(*[range(len(c)) for c in self.chunks_normal[1:]])\n        )"))
+mutant("M68c-task-end-num-tasks", ["C13"], "EVENTS-1", (LOCAL, "event = TaskEndEvent(name=name, result=result)", "event = TaskEndEvent(name=name, result=result, num_tasks=2)"))
+benign(
+    "B-start-callback-earlier",
+    ["C13", "C07"],
+    (ASYNC, "            handle_operation_start_callbacks(callbacks, name)\n            st = pipeline_to_stream(\n                create_futures_func, name, node[\"pipeline\"], **kwargs\n            )", "            st = pipeline_to_stream(\n                create_futures_func, name, node[\"pipeline\"], **kwargs\n            )\n            handle_operation_start_callbacks(callbacks, name)"),
+)
+benign(
+    "B-stats-get-style",
+    ["C13"],
+    (PLAN, "                primitive_op = node.get(\"primitive_op\", None)\n                if primitive_op is not None:", "                if \"primitive_op\" in node:\n                    primitive_op = node[\"primitive_op\"]"),
+)
